@@ -36,7 +36,13 @@ SSE_ACCESSORS = ['sse_f32_load_complex', 'sse_f32_load_partial_lo', 'sse_f32_loa
 for h in SSE_ACCESSORS:
     HARNESSES.append((h, ['C03'], 'quick', 'complete', 'ssevec'))
 
+ARRAY_UTILS = ['array_utils_transmute_identity', 'array_utils_loadstore_slice', 'array_utils_loadstore_array']
+for h in ARRAY_UTILS:
+    # discharge the declared rewrites R17 / R2b of the Verus extraction (seconds; quick tier)
+    HARNESSES.append((h, ['C03', 'C15'], 'quick', 'complete', 'arrayutils'))
+
 GROUP_FLAGS = {
+    'arrayutils': [],
     'avxvec': ['--features', 'avx'],
     'ssevec': ['--features', 'sse'],
     'sse': ['--features', 'sse', '--no-overflow-checks', '-Z', 'stubbing'],
@@ -46,10 +52,11 @@ GROUP_FLAGS = {
     'nofloatchecks': ['--no-overflow-checks'],
 }
 SPURIOUS = {}  # none: the float SIMD arithmetic intrinsics are stubbed lane-wise (kani/sse_macros.rs), so no check is ignored
-GROUP_TARGET = {'sse': 'kani-target-sse', 'avxvec': 'kani-target-avx', 'ssevec': 'kani-target-ssevec'}
+GROUP_TARGET = {'arrayutils': 'kani-target-au', 'sse': 'kani-target-sse', 'avxvec': 'kani-target-avx', 'ssevec': 'kani-target-ssevec'}
 # parallel CBMC jobs per group: the large f64 scalar kernels need ~20 GB each
-GROUP_JOBS = {'default': 3, 'nofloatchecks': 2, 'sse': 3, 'avxvec': 6, 'ssevec': 6}
+GROUP_JOBS = {'arrayutils': 3, 'default': 3, 'nofloatchecks': 2, 'sse': 3, 'avxvec': 6, 'ssevec': 6}
 ASSUME = {
+    'arrayutils': 'Kani/CBMC; all element bit patterns, every slice length up to the backing array and every in-range index (the unwinding bound 6 covers the constant check loops; unwinding assertions on): workaround_transmute[_mut] returns the same pointer and length; LoadStore::load/store on a slice / array touch exactly element idx',
     'ssevec': 'Kani/CBMC on the SSE load/store intrinsics as implemented in stdarch; all element bit patterns; loop-free (complete for this accessor): each SseArray[Mut] accessor, called as its debug_assert allows, dereferences nothing outside [index, index + k) and leaves both neighbours of the stored range bit-identical',
     'avxvec': 'Kani/CBMC on the AVX load/store intrinsics as implemented in stdarch (copy_nonoverlapping / simd_shuffle / pointer reads and writes); all element bit patterns; loop-free (complete for this accessor): each AvxArray[Mut] accessor, called as its debug_assert allows (index + k <= len, exercised with len == k and with the last k elements of a longer buffer), dereferences nothing outside [index, index + k)',
     'sse': 'Kani/CBMC on the SSE intrinsics as lowered to generic simd_* operations; all element bit patterns and both directions, constant loops fully unwound (complete for this kernel); float NaN/overflow checks off; the eight float arithmetic intrinsics (_mm_add/sub/mul/addsub_ps/pd) are stubbed lane-wise because the assert-and-assume "no overflow" on float simd_add/sub/mul would make all later code unreachable (vacuity found by a mutation test); is_x86_feature_detected is not reached (kernels are called directly, as the verified helpers call them)',
